@@ -327,6 +327,7 @@ func cmdRun(args []string) {
 	smtLog := fs.String("smtlog", "", "write the SMT script of the (last) job here")
 	unwind := fs.Int("unwind", 0, "loop unwinding bound")
 	repo := fs.String("repo", "/repo", "repository under test")
+	deadline := fs.Int("deadline", 0, "executor deadline in seconds (single job)")
 	fs.Parse(args)
 	repoDir = *repo
 	var jobs []Job
@@ -341,7 +342,7 @@ func cmdRun(args []string) {
 			os.Exit(2)
 		}
 	} else {
-		j := Job{ID: *harness, Pkg: *pkg, Harness: *harness, Cfg: map[string]int64{}, Unwind: *unwind}
+		j := Job{ID: *harness, Pkg: *pkg, Harness: *harness, Cfg: map[string]int64{}, Unwind: *unwind, Timeout: *deadline}
 		for _, kv := range strings.Split(*cfgS, ",") {
 			if kv == "" {
 				continue
